@@ -420,6 +420,9 @@ func overwriteExported(dst, src *neat.Options) {
 // that served unrelated work before the run started)
 var preparedExecutor genetics.PopulationEpochExecutor
 
+// executorPerTurnover, when set, makes runScenario take a new executor object for every turnover (C17)
+var executorPerTurnover bool
+
 // sharedStartGenome, when set, is the genome object every spawning constructor call starts from (C17: two runs from one object)
 var sharedStartGenome *genetics.Genome
 
@@ -521,6 +524,9 @@ func runScenario(sc Scenario, h epochHooks, rec *Rec) error {
 			if h.switched != nil {
 				h.switched(opts)
 			}
+		}
+		if executorPerTurnover && e > 0 {
+			exec = newExecutor(opts)
 		}
 		n := len(pop.Organisms)
 		for i, o := range pop.Organisms {
